@@ -361,3 +361,51 @@ func init() {
 		c.ok("dbg", "y", "", "")
 	})
 }
+
+func init() {
+	register("EARLYRET", func(c *Ctx) {
+		for _, fn := range c.P.sortedFuncs() {
+			pr := pkgRelOf(fn)
+			if !(pr == "core/deprecatedstate" || pr == "core/state" || pr == "blockchain/statebackend" || pr == "pruner" || pr == "core") || fn.Origin() != nil {
+				continue
+			}
+			for _, ret := range returnsOf(fn) {
+				if len(ret.Results) == 0 || !isNilConst(ret.Results[len(ret.Results)-1]) || ret.Results[len(ret.Results)-1].Type().String() != "error" {
+					continue
+				}
+				if inSameLoop(ret.Ret.Block(), ret.Ret.Block()) || loopBodyExit(ret.Ret.Block()) {
+					fmt.Println("EARLY", qname(fn), c.P.Pos(posOf(ret.Ret, fn)))
+				}
+			}
+		}
+		c.ok("dbg", "x", "", "")
+		c.ok("dbg", "y", "", "")
+	})
+}
+
+// loopBodyExit: block is dominated by a loop body block (reachable only from inside a cycle) although it leaves the loop
+func loopBodyExit(b *ssa.BasicBlock) bool {
+	for d := b.Idom(); d != nil; d = d.Idom() {
+		if inSameLoop(d, d) {
+			// d is in a loop; b is dominated by d but not in the loop itself → b is an exit taken from inside the loop body,
+			// unless d is the loop header whose normal exit leads to b
+			// normal exit: b reachable from header's "done" successor: treat header specially
+			isHeader := false
+			for _, p := range d.Preds {
+				if d.Dominates(p) {
+					isHeader = true
+				}
+			}
+			if isHeader {
+				// exit edge directly from the header is the normal loop end
+				for _, s := range d.Succs {
+					if (s == b || s.Dominates(b)) && !inSameLoop(s, d) {
+						return false
+					}
+				}
+			}
+			return true
+		}
+	}
+	return false
+}
